@@ -10,6 +10,10 @@ VERUS = os.environ.get('VX_VERUS', 'verus')
 SEMANTIC = [
     ('postcondition not satisfied', 'post'),
     ('precondition not satisfied', 'pre'),
+    ('precondition not met', 'pre'),
+    ('possible arithmetic', 'overflow'),
+    ('unable to prove post-condition of closure', 'post'),
+    ('unable to prove pre-condition', 'pre'),
     ('assertion failed', 'assert'),
     ('possible arithmetic underflow/overflow', 'overflow'),
     ('possible division by zero', 'divzero'),
